@@ -71,11 +71,16 @@ class RecordingPush:
 
 
 class Rig:
-    def __init__(self, custom=None, plugins=(), resource=None, host_dir=None, push=None, agent=None):
+    def __init__(self, custom=None, plugins=(), resource=None, host_dir=None, push=None, agent=None, parts=None):
         from deep.config import ConfigService
         from deep.api.resource import Resource
         from deep.processor.trigger_handler import TriggerHandler
-        if agent is not None:
+        if parts is not None:
+            # pre-assembled (config, handler, recording push or None)
+            self.config, self.handler, self.push = parts
+            if self.push is None:
+                self.push = RecordingPush(self)
+        elif agent is not None:
             # drive an assembled (not started) Deep instance: its own config and handler, deliveries recorded
             self.config = agent.config
             self.config.plugins = list(plugins)
